@@ -480,7 +480,8 @@ class GAArgs(Arg):
 
     def make(self, it):
         k, j = z3.Int("K"), z3.Int("J")
-        val = SVal(object, z3.Const("stored_value", V), {"eq": "term"})
+        # the stored value may be None (an optional element that was not set): still the value of that attribute
+        val = SIte(z3.Bool("stored_value_is_none"), None, SVal(object, z3.Const("stored_value", V), {"eq": "term"}))
         self.k = k; self.j = j
         return {"K": SInt(k), "J": SInt(j), "VALUE": val, "self": ASelfGA(k, ASub(j, val))}, [k >= 0, k <= 2, j >= 0, j <= 2]
 
@@ -512,7 +513,7 @@ G0 = len(CONTRACTS)
 CONTRACTS += [
     Contract("ofxtools.models.base:Aggregate.__getattr__",
              args=[GAArgs()], call=call_getattr_body,
-             ensures=[("first-definer-wins", "(ga['K'] == 1 and ga['J'] == 0 and result[0] == 'return' and result[1] == ga['VALUE']) or "
+             ensures=[("first-definer-wins", "(ga['K'] == 1 and ga['J'] == 0 and result[0] == 'return' and spec.aggregate.same_value(result[1], ga['VALUE'])) or "
                                              "(not (ga['K'] == 1 and ga['J'] == 0) and result[0] == 'continue')"),
                       ("C17-lookup-stores-nothing", "result[2] == 0")],
              notes="loop body of __getattr__ with a symbolic sub-aggregate: a definer returns the very value stored; anything else moves on; no exception escapes (raises: none allowed)",
